@@ -43,6 +43,11 @@ func (f *failing) Read(p []byte) (int, error) {
 // capacity); memViolation is non-empty when the call changed any byte of that frame or of the memory after it.
 func verify(r *mon.Run, c Case, v10 bool, pk, pi, alpha []byte) (ok bool, beta []byte, pan bool, msg string) {
 	fr, frameCheck := mon.Frame(pk, pi, alpha)
+	if len(alpha) == 0 && len(pi) > 0 && pi[0]&1 == 1 {
+		// the empty message as a nil slice (half of the time): nil and empty are the same byte string
+		fr[2] = nil
+		r.Hist("verify/empty-alpha-passed-as-nil")
+	}
 	pan, msg = mon.Try(func() {
 		if v10 {
 			ok, beta = ecvrf.Verify_v10(fr[0], fr[1], fr[2])
